@@ -4,6 +4,8 @@
    "an empty sketch counts about zero" (no small-range correction). *)
 From GX.Model Require Import Base HLL.
 From GX.Proofs Require Import ListLemmas HLLProofs.
+From GX.Model Require Import Redis RedisHLL.
+From GX.Proofs Require Import RedisHLLRefine.
 
 (* for every hash function: with m = 2^p >= 128 registers, Update never fails *)
 Theorem C05_update_total_partial : forall hash s x,
@@ -50,6 +52,14 @@ Proof. vm_compute. repeat split; reflexivity. Qed.
 Example C05_premises_hold : exists s, hll_new 128 0 = Ok s /\ 128 <= h_m s.
 Proof. eexists; split; [reflexivity|]. vm_compute. discriminate. Qed.
 
+(* Redis-backed variant: for every hash, every Update of a sketch with at least 128 registers
+   succeeds (the script finds its register), and keeps representing the in-memory registers *)
+Theorem C05_redis_update_total : forall hash s h mh x,
+  hrefines s h mh -> 128 <= h_m mh ->
+  exists s' mh', rhll_update (hic_of hash) s h x = (Ok tt, s') /\
+                 hll_update (hic_of hash) mh x = Ok mh' /\ hrefines s' h mh'.
+Proof. exact rhll_update_total. Qed.
+
 Print Assumptions C05_update_total_partial.
 Print Assumptions C05_new_wf.
 Print Assumptions C05_update_preserves_wf.
@@ -57,3 +67,4 @@ Print Assumptions C05_index_range.
 Print Assumptions C05_update_refuted_small_m.
 Print Assumptions C05_update_refuted_m1.
 Print Assumptions C05_empty_refuted.
+Print Assumptions C05_redis_update_total.
